@@ -188,7 +188,8 @@ Proof.
   { eexists. split; vm_compute; reflexivity. }
   assert (RUN : exists e, fs_engine 4 F [Cycle 0 [Vertex 1]] 2 1 false 60 = Some e /\
             e_pre N e 1 = 15%N /\ e_post N e 1 = 14%N /\ e_pre N e 0 = 14%N /\ e_post N e 0 = 14%N).
-  { eexists. repeat split; vm_compute; reflexivity. }
+  { eexists. split; [vm_compute; reflexivity|]. split; [vm_compute; reflexivity|].
+    split; [vm_compute; reflexivity|]. split; vm_compute; reflexivity. }
   destruct LF as [t [LF IB]]. destruct RUN as [e [RUN [E1 [E2 [E3 E4]]]]].
   split; [exact BU|]. split; [vm_compute; reflexivity|].
   exists e. split; [exact RUN|]. split; [exact E1|]. split; [exact E2|]. split; [exact E3|]. split; [exact E4|].
